@@ -83,21 +83,21 @@ example : (match ({ addrs := [⟨false, 10⟩] } : Kernel).bind ⟨false, 0⟩ 5
 
 /-! ### port 0 -/
 
-def CursorOk (t : Table) : Prop := ephLo ≤ t.cursor ∧ t.cursor ≤ ephHi
+def CursorOk (t : Table) : Prop := t.lo ≤ t.cursor ∧ t.cursor ≤ t.hi
 
 /-- `allocate_port`: with the cursor inside the ephemeral range the result is a port of the
     range that no binding of this protocol space uses at any address; `none` exactly when every
     port of the range is so used; the cursor stays inside the range. -/
 theorem port0_fresh (t : Table) (v6 tcp : Bool) (hc : CursorOk t) :
     (∀ p t', t.allocatePort v6 tcp = (some p, t') →
-        ephLo ≤ p ∧ p ≤ ephHi ∧
+        t.lo ≤ p ∧ p ≤ t.hi ∧
         (∀ e ∈ t.bindings, ¬(e.1.v6 = v6 ∧ e.1.tcp = tcp ∧ e.1.port = p)) ∧
-        CursorOk t' ∧ t'.bindings = t.bindings ∧ t'.socks = t.socks) ∧
+        CursorOk t' ∧ t'.bindings = t.bindings ∧ t'.socks = t.socks ∧ t'.lo = t.lo ∧ t'.hi = t.hi) ∧
     (∀ t', t.allocatePort v6 tcp = (none, t') →
-        (∀ q, ephLo ≤ q → q ≤ ephHi → ∃ e ∈ t.bindings, e.1.v6 = v6 ∧ e.1.tcp = tcp ∧ e.1.port = q) ∧ t' = t) ∧
-    ((∃ q, ephLo ≤ q ∧ q ≤ ephHi ∧ ∀ e ∈ t.bindings, ¬(e.1.v6 = v6 ∧ e.1.tcp = tcp ∧ e.1.port = q)) →
+        (∀ q, t.lo ≤ q → q ≤ t.hi → ∃ e ∈ t.bindings, e.1.v6 = v6 ∧ e.1.tcp = tcp ∧ e.1.port = q) ∧ t' = t) ∧
+    ((∃ q, t.lo ≤ q ∧ q ≤ t.hi ∧ ∀ e ∈ t.bindings, ¬(e.1.v6 = v6 ∧ e.1.tcp = tcp ∧ e.1.port = q)) →
         ∃ p t', t.allocatePort v6 tcp = (some p, t')) := by
-  have hspec := allocate_spec ephLo ephHi t.cursor (t.portInUse v6 tcp) hc.1 hc.2
+  have hspec := allocate_spec t.lo t.hi t.cursor (t.portInUse v6 tcp) hc.1 hc.2
   have huse : ∀ q, t.portInUse v6 tcp q = true ↔ ∃ e ∈ t.bindings, e.1.v6 = v6 ∧ e.1.tcp = tcp ∧ e.1.port = q := by
     intro q
     simp only [Table.portInUse, List.any_eq_true]
@@ -111,20 +111,20 @@ theorem port0_fresh (t : Table) (v6 tcp : Bool) (hc : CursorOk t) :
   refine ⟨?_, ?_, ?_⟩
   · intro p t' h
     simp only [Table.allocatePort] at h
-    cases ha : allocate ephLo ephHi t.cursor (t.portInUse v6 tcp) with
+    cases ha : allocate t.lo t.hi t.cursor (t.portInUse v6 tcp) with
     | mk r c =>
       rw [ha] at h
       simp only [Prod.mk.injEq] at h
       obtain ⟨rfl, rfl⟩ := h
       have := hspec.1 p c ha
-      refine ⟨this.1, this.2.1, ?_, ⟨this.2.2.2.1, this.2.2.2.2⟩, rfl, rfl⟩
+      refine ⟨this.1, this.2.1, ?_, ⟨this.2.2.2.1, this.2.2.2.2⟩, rfl, rfl, rfl, rfl⟩
       intro e he hcontra
       have hu := (huse p).mpr ⟨e, he, hcontra⟩
       rw [this.2.2.1] at hu
       exact absurd hu (by simp)
   · intro t' h
     simp only [Table.allocatePort] at h
-    cases ha : allocate ephLo ephHi t.cursor (t.portInUse v6 tcp) with
+    cases ha : allocate t.lo t.hi t.cursor (t.portInUse v6 tcp) with
     | mk r c =>
       rw [ha] at h
       simp only [Prod.mk.injEq] at h
@@ -139,10 +139,15 @@ theorem port0_fresh (t : Table) (v6 tcp : Bool) (hc : CursorOk t) :
       | true => exact absurd ((huse q).mp hq) (by
           rintro ⟨e, he, h⟩
           exact hfree e he h)
-    obtain ⟨p, c, h⟩ := allocate_finds ephLo ephHi t.cursor (t.portInUse v6 tcp) hc.1 hc.2 q h1 h2 hf
+    obtain ⟨p, c, h⟩ := allocate_finds t.lo t.hi t.cursor (t.portInUse v6 tcp) hc.1 hc.2 q h1 h2 hf
     exact ⟨p, { t with cursor := c }, by simp [Table.allocatePort, h]⟩
 
 example : CursorOk ({} : Table) := ⟨by decide, by decide⟩
+/-- a one-port range whose port is free: the scan must look at it before giving up -/
+example : (({ lo := 50000, hi := 50000, cursor := 50000 } : Table).allocatePort false false).1 = some 50000 := by decide
+/-- range one short of exhaustion, the free port is the one just behind the cursor -/
+example : (({ lo := 50000, hi := 50002, cursor := 50002, bindings := [(⟨false, false, ⟨false, 10⟩, 50000⟩, [1]), (⟨false, false, ⟨false, 10⟩, 50002⟩, [2])] } : Table).allocatePort false false).1 = some 50001 := by
+  decide
 /-- wrap-around: cursor at the top of the range, top port taken -/
 example : (({ cursor := 65535, bindings := [(⟨false, false, ⟨false, 10⟩, 65535⟩, [1])] } : Table).allocatePort false false).1
     = some 49152 := by decide
